@@ -1034,6 +1034,43 @@ theorem cvarDeltasLoop_length (p : TVD) (l : List (TV × Int)) :
 
 /-! ## `active_tuples_at` -/
 
+theorem computeScalar_some_src (p : TVD) (t : TV) (coords : List Int) (v : Int)
+    (h : t.computeScalar p coords = .ok (some v)) :
+    ∃ pk inter, Checked.tupleScalar pk inter coords = some (some v) := by
+  unfold TV.computeScalar at h
+  cases hpk : t.peak p with
+  | none => rw [hpk] at h; cases h
+  | some pk =>
+    rw [hpk] at h
+    simp only [] at h
+    by_cases hlen : pk.length ≠ p.ac
+    · rw [if_pos hlen] at h; cases h
+    · rw [if_neg hlen] at h
+      cases hit : t.hdr.interTuples with
+      | trap => rw [hit] at h; cases h
+      | none =>
+        rw [hit] at h
+        simp only [] at h
+        cases hts : Checked.tupleScalar pk none coords with
+        | none => rw [hts] at h; cases h
+        | some r =>
+          rw [hts] at h
+          simp only [unwrapR] at h
+          injection h with h
+          exact ⟨pk, none, by rw [hts, h]⟩
+      | some a b =>
+        rw [hit] at h
+        simp only [] at h
+        cases hts : Checked.tupleScalar pk (some (a, b)) coords with
+        | none => rw [hts] at h; cases h
+        | some r =>
+          rw [hts] at h
+          simp only [unwrapR] at h
+          injection h with h
+          exact ⟨pk, some (a, b), by rw [hts, h]⟩
+
+
+
 theorem activeFold_ok (p : TVD) (coords : List Int) (ts : List TV)
     (h : ∀ t ∈ ts, ∃ r, t.computeScalar p coords = .ok r) :
     ∃ l, ts.foldr (fun t acc =>
